@@ -15,7 +15,11 @@ import (
 //	case <n> apply
 //	cfg <A>                                  the configuration a previous run installed
 //	cfg <B>                                  the configuration of this run
-//	apply <prior: clean|same|other> <foreign 0|1> <reconcile> <cleanupOnly> <forceApply> <v6detect: ok|fail>
+//	apply <prior> <foreign 0|1> <reconcile> <cleanupOnly> <forceApply> <detection: ok|fail|v4-fail|save-fail>
+//
+// prior: clean | same | other (any other configuration, sometimes with the other IPv6 setting) | superset / subset
+// (same chains, more / fewer rules) | extra-chain (B plus ISTIO_DROP and its jump) | same+chain (B plus an
+// empty, unreferenced ISTIO chain) | v6-residue (IPv4 clean, IPv6 tables hold A's rules, B has IPv6 off).
 
 var foreignRules = []string{
 	"* nat", "-N KUBE-SERVICES", "-A PREROUTING -j KUBE-SERVICES", "-A OUTPUT -j KUBE-SERVICES",
@@ -32,17 +36,31 @@ func genApply(r *wire.Rng, i int, out *wire.Out) {
 		}
 	}
 	a.IPv6 = b.IPv6
-	prior := wire.Pick(r, []string{"clean", "same", "same", "other", "superset", "subset"})
+	prior := wire.Pick(r, []string{"clean", "same", "same", "other", "other", "superset", "subset", "same+chain", "extra-chain", "v6-residue"})
 	extra := func(c rawCfg) rawCfg { // the same chains, a few more rules in them
 		c.OutPortsExclude = strings.TrimPrefix(c.OutPortsExclude+",4444", ",")
 		c.OutExclude = strings.TrimPrefix(c.OutExclude+",203.0.113.0/24", ",")
 		return c
 	}
 	switch prior {
+	case "other":
+		if r.Chance(1, 3) { // the two runs disagree on IPv6
+			a.IPv6 = !b.IPv6
+		}
 	case "superset":
 		a = extra(b)
 	case "subset":
 		a, b = b, extra(b)
+	case "extra-chain": // what this run installs plus one more ISTIO chain with its jump (ISTIO_DROP of DROP_INVALID)
+		b.DropInvalid = false
+		a = b
+		a.DropInvalid = true
+	case "same+chain": // what this run installs plus an empty ISTIO chain nobody jumps to
+		a = b
+	case "v6-residue": // the previous run had IPv6 on, this one has not, and only the IPv6 tables hold its rules
+		b.IPv6 = false
+		a = b
+		a.IPv6 = true
 	}
 	reconcile, cleanup, force := r.Chance(1, 2), r.Chance(1, 4), r.Chance(1, 6)
 	v6 := "ok"
@@ -85,21 +103,30 @@ func applyCase(a, b rawCfg, t []string) string {
 	}
 	prior, foreign, reconcile, cleanup, force, v6fail := t[1], t[2] == "1", t[3] == "1", t[4] == "1", t[5] == "1", t[6] == "fail"
 	v4fail, savefail := t[6] == "v4-fail", t[6] == "save-fail"
-	drifted := prior == "other" || prior == "superset" || prior == "subset"
+	drifted := prior == "other" || prior == "superset" || prior == "subset" || prior == "extra-chain" || prior == "same+chain"
 	ca, cb := runReal(a), runReal(b)
 	if ca.status != "ok" || cb.status != "ok" {
 		return ""
 	}
 	sim, want, base := newSim(), newSim(), newSim()
-	_ = install(base, foreign, compiled{})
-	if err := install(want, foreign, cb); err != nil {
+	resid := compiled{} // rules of a family this run plans nothing for: they are not this run's business
+	if prior == "v6-residue" {
+		resid = compiled{v6: ca.v6}
+	}
+	_ = install(base, foreign, resid)
+	if err := install(want, foreign, compiled{v4: cb.v4, v6: append(append([]string{}, resid.v6...), cb.v6...)}); err != nil {
 		return "FAIL apply:own-restore-text-rejected " + strings.ReplaceAll(err.Error(), " ", "_")
 	}
 	switch prior {
 	case "same":
 		_ = install(sim, foreign, cb)
-	case "other", "superset", "subset":
+	case "same+chain":
+		_ = install(sim, foreign, cb)
+		_ = sim.v4.restore([]string{"* nat", "-N ISTIO_LEFTOVER", "COMMIT"}, true)
+	case "other", "superset", "subset", "extra-chain":
 		_ = install(sim, foreign, ca)
+	case "v6-residue":
+		_ = install(sim, foreign, compiled{v6: ca.v6})
 	default:
 		_ = install(sim, foreign, compiled{})
 	}
@@ -129,6 +156,13 @@ func applyCase(a, b rawCfg, t []string) string {
 	left := capture.HasIstioLeftovers(builder.NewIptablesRuleBuilder(nil).GetStateFromSave(sim.v4.save()))
 	for k, v := range capture.HasIstioLeftovers(builder.NewIptablesRuleBuilder(nil).GetStateFromSave(sim.v6.save())) {
 		left["v6:"+k] = v
+	}
+	if prior == "v6-residue" {
+		for k := range left {
+			if strings.HasPrefix(k, "v6:") {
+				delete(left, k)
+			}
+		}
 	}
 	det := func(s string) string { return strings.ReplaceAll(strings.ReplaceAll(s, " ", "_"), "\n", "|") }
 	class := fmt.Sprintf("prior=%s reconcile=%v cleanup=%v force=%v", prior, reconcile, cleanup, force)
@@ -170,6 +204,19 @@ func applyCase(a, b rawCfg, t []string) string {
 			return "FAIL apply:drift-not-detected " + class
 		}
 	}
+	// guardrails: whenever a run that goes on to apply rules removes old ones, every planned family drops all
+	// tcp/udp traffic from before the first removal until after the restore
+	if !cleanup {
+		fams := []string{"iptables"}
+		if b.IPv6 {
+			fams = append(fams, "ip6tables")
+		}
+		for _, bin := range fams {
+			if why := guardrailOrder(sim.cmds, bin); why != "" {
+				return "FAIL apply:" + why + " " + class + " family=" + bin
+			}
+		}
+	}
 	switch {
 	case cleanup:
 		if sim.restores != 0 {
@@ -180,18 +227,36 @@ func applyCase(a, b rawCfg, t []string) string {
 				return "FAIL apply:cleanup-only-error " + class
 			}
 			if after != base.canon() {
+				// recorded class c20:cleanup-leaves-jump-target-only-chain, excluded BY ITS CAUSE: everything left is an
+				// empty ISTIO chain this configuration declares (-N) but never puts a rule into - buildCleanupRules only
+				// flushes and deletes chains that own a rule
+				if only := jumpTargetOnlyLeftovers(base, sim, cb); only != "" {
+					return "OBS apply:cleanup-leaves-jump-target-only-chain " + class + " chains=" + only
+				}
 				return "FAIL apply:cleanup-only-leftovers " + class + " state=" + det(after)
 			}
 			if len(left) != 0 {
 				return "FAIL apply:HasIstioLeftovers-after-cleanup " + class
 			}
 		}
-	case prior == "clean", prior == "same" && !force:
+	case prior == "clean", prior == "v6-residue", prior == "same" && !force:
 		if runErr != nil {
 			return "FAIL apply:error " + class + " err=" + det(runErr.Error())
 		}
 		if after != want.canon() {
 			return "FAIL apply:final-state " + class
+		}
+		// nothing of Istio's in the tables of the planned families (residue of a family this run plans nothing for
+		// does not count): the clean-state path - no cleanup commands, no guardrails
+		// (foreign rules make the real code see "residue" - GetStateFromSave keeps every rule of the four tables -, so
+		// the statement is made for tables holding nothing else)
+		if prior != "same" && !foreign {
+			hit("apply.clean-state.runs")
+			for _, c := range sim.cmds {
+				if isCleanupCmd(c) || isGuardrailCmd(c) {
+					return "FAIL apply:cleanup-on-clean-state " + class + " cmd=" + det(c)
+				}
+			}
 		}
 		if prior == "same" && !reconcile && sim.restores != 0 {
 			return "FAIL apply:not-idempotent(restore-issued-on-identical-state) " + class
@@ -212,4 +277,95 @@ func applyCase(a, b rawCfg, t []string) string {
 		}
 	}
 	return ""
+}
+
+func isCleanupCmd(c string) bool {
+	return !strings.Contains(c, " -t filter ") && (strings.Contains(c, " -D ") || strings.Contains(c, " -F ") || strings.Contains(c, " -X "))
+}
+
+func isGuardrailCmd(c string) bool {
+	return strings.Contains(c, " -t filter ") && strings.HasSuffix(c, " -j DROP")
+}
+
+// guardrailOrder: "" when the commands issued for one family respect the guardrail discipline.
+func guardrailOrder(cmds []string, bin string) string {
+	firstCleanup, lastWork, sixth, ins := -1, -1, -1, 0
+	for i, c := range cmds {
+		switch {
+		case strings.HasPrefix(c, bin+" ") && isCleanupCmd(c):
+			if firstCleanup < 0 {
+				firstCleanup = i
+			}
+			lastWork = i
+		case strings.HasPrefix(c, bin+"-restore"):
+			lastWork = i
+		case strings.HasPrefix(c, bin+" -t filter -I ") && isGuardrailCmd(c):
+			if ins++; ins == 6 {
+				sixth = i
+			}
+		}
+	}
+	if firstCleanup < 0 {
+		return ""
+	}
+	hit("apply.guardrail.runs-with-cleanup")
+	if sixth < 0 || sixth > firstCleanup {
+		return "cleanup-without-guardrails"
+	}
+	for i := sixth; i < lastWork; i++ {
+		if strings.HasPrefix(cmds[i], bin+" -t filter -D ") && isGuardrailCmd(cmds[i]) {
+			return "guardrails-removed-before-the-work-is-done"
+		}
+	}
+	return ""
+}
+
+// jumpTargetOnlyLeftovers: when the only difference between `got` and `base` is a set of EMPTY user chains that
+// the compiled text declares with -N without ever appending / inserting a rule into them (in that table and
+// family), their names; "" otherwise.
+func jumpTargetOnlyLeftovers(base, got *simDeps, c compiled) string {
+	var names []string
+	for _, fam := range []struct {
+		name      string
+		base, got *famState
+		text      []string
+	}{{"v4", base.v4, got.v4, c.v4}, {"v6", base.v6, got.v6, c.v6}} {
+		have := map[string]bool{}
+		for _, l := range strings.Split(fam.base.canon(), "\n") {
+			have[l] = true
+		}
+		gotLines := map[string]bool{}
+		for _, l := range strings.Split(fam.got.canon(), "\n") {
+			gotLines[l] = true
+			if l == "" || have[l] {
+				continue
+			}
+			tc := strings.SplitN(strings.TrimSuffix(l, ": "), "/", 2)
+			if !strings.HasSuffix(l, ": ") || len(tc) != 2 || !strings.HasPrefix(tc[1], "ISTIO_") {
+				return ""
+			}
+			table, declared, owns := "", false, false
+			for _, x := range fam.text {
+				w := strings.Fields(x)
+				switch {
+				case len(w) == 2 && w[0] == "*":
+					table = w[1]
+				case table == tc[0] && len(w) >= 2 && w[0] == "-N" && w[1] == tc[1]:
+					declared = true
+				case table == tc[0] && len(w) >= 2 && (w[0] == "-A" || w[0] == "-I") && w[1] == tc[1]:
+					owns = true
+				}
+			}
+			if !declared || owns {
+				return ""
+			}
+			names = append(names, fam.name+":"+l[:len(l)-2])
+		}
+		for l := range have {
+			if l != "" && !gotLines[l] {
+				return ""
+			}
+		}
+	}
+	return strings.Join(names, ",")
 }
